@@ -23,6 +23,7 @@ func lookupFlow[T any](urlTree *URLTree[T], url string) lookupFlowNodeResult[T] 
 	currentNode := urlTree.Root
 	flows := []T{}
 	index := 0
+	matchedAll := true
 
 	var part urlPart
 	for index, part = range splitURL {
@@ -44,12 +45,15 @@ func lookupFlow[T any](urlTree *URLTree[T], url string) lookupFlowNodeResult[T] 
 			continue
 		}
 
+		matchedAll = false
 		break
 	}
 
-	if index == lookUpLength && currentNode.hasValue() && currentNode.WildcardChild == nil {
+	// the exact node applies only when every part of the URL was consumed by the walk
+	if matchedAll && index == lookUpLength && currentNode.hasValue() {
 		flows = append(flows, *currentNode.Value)
-	} else if index == lookUpLength && part.IsPartOfHost &&
+	}
+	if matchedAll && index == lookUpLength && part.IsPartOfHost &&
 		currentNode.WildcardChild != nil && currentNode.WildcardChild.hasValue() {
 		// case where url is host without path and filter ends with a wildcard, for example:
 		// url: "host.com", filter: "host.com/*"
